@@ -49,6 +49,11 @@ class MagicMemoryFL( Component ):
 
   def amo( s, amo, addr, nbytes, data ):
     ret = s.read( addr, nbytes )
+    # The operation acts on the addressed bytes: the operand is the low
+    # nbytes of the data, whatever the width of the data field
+    nbits = int(nbytes) << 3
+    if getattr( data, 'nbits', nbits ) > nbits:
+      data = data[0:nbits]
     s.write( addr, nbytes, AMO_FUNS[ int(amo) ]( ret, data ) )
     s.trace = "[amo]"
     return ret
